@@ -292,6 +292,9 @@ func (u *Unit) loadField(st *State, sk string, fld *types.Var, ref T) *V {
 			case *types.Pointer, *types.Map:
 				u.markRefKey(key + l.Path)
 			}
+		} else if strings.HasSuffix(l.Path, "#arr") {
+			// the backing array of a slice is an object as well
+			u.markRefKey(key + l.Path)
 		}
 		return sel(u.heapGet(st, key+l.Path, arrSort(SInt, l.Sort)), ref)
 	})
